@@ -23,9 +23,11 @@ import (
 	"fmt"
 	"os"
 	"os/exec"
+	"path/filepath"
 	"sort"
 	"strings"
 	"sync"
+	"syscall"
 	"time"
 
 	"github.com/drand/drand/v2/common"
@@ -629,9 +631,19 @@ func runOne(sc scenario, spec crashSpec) (res runResult) {
 
 const keyopEnv = "VERIF_C13_KEYOP"
 
+// keyMaterial: generations 1 and 2 are 3-of-5 groups (long encodings), generation 3 a 1-of-1 group (a shorter
+// encoding saved over a longer one, as after a resharing to a lower threshold).
 func keyMaterial(gen int) (*key.Pair, *key.Group, *key.Share) {
-	ch := bench.ChainOf(bench.ChainSpec{ID: beaconID, Scheme: crypto.DefaultSchemeID, Kind: "running"},
-		bench.Spec{Addr: "127.0.0.1:1", PeriodS: 1, Genesis: 1700000000 + int64(gen), Label: fmt.Sprintf("gen%d/", gen)})
+	sp := bench.Spec{Addr: "127.0.0.1:1", PeriodS: 1, Genesis: 1700000000 + int64(gen), Label: fmt.Sprintf("gen%d/", gen)}
+	kind := "group"
+	if gen < 3 {
+		for i := 0; i < 4; i++ {
+			sp.Members = append(sp.Members, bench.Member{Label: fmt.Sprintf("c13/gen%d/member%d", gen, i), Addr: fmt.Sprintf("127.0.0.1:%d", 10+i)})
+		}
+	} else {
+		kind = "running"
+	}
+	ch := bench.ChainOf(bench.ChainSpec{ID: beaconID, Scheme: crypto.DefaultSchemeID, Kind: kind}, sp)
 	return ch.Pair, ch.Group, ch.Share
 }
 
@@ -639,8 +651,13 @@ var keyOps = []string{"SaveKeyPair", "SaveGroup", "SaveShare", "SelfSignAll"}
 
 // keyopChild performs one key-store operation on a folder that holds generation-1 material (crash points armed by env).
 func keyopChild(op, dir string) {
+	gen := 2
+	if strings.HasSuffix(op, "@3") {
+		op, gen = strings.TrimSuffix(op, "@3"), 3
+	}
+	syscall.Umask(0) // the modes of secret files must not depend on a friendly umask
 	ks := key.NewFileStore(dir, beaconID)
-	kp, g, sh := keyMaterial(2)
+	kp, g, sh := keyMaterial(gen)
 	var err error
 	switch op {
 	case "SaveKeyPair":
@@ -712,6 +729,54 @@ func runKeyop(op string, spec crashSpec) (points []crashSpec, problems []problem
 	} else if !sh.PrivateShare().V.Equal(sh1.PrivateShare().V) && !sh.PrivateShare().V.Equal(sh2.PrivateShare().V) {
 		bad("share-file-readable", "after the crash the share is neither the old nor the new one")
 	}
+	// the operator (or the daemon) tries again after the crash, with other content (generation 3, shorter encodings):
+	// what is then on disk must be exactly that, in files readable by their owner only
+	if op == "SelfSignAll" {
+		return points, problems
+	}
+	cmd2 := exec.Command(os.Args[0])
+	cmd2.Env = append(os.Environ(), keyopEnv+"="+op+"@3|"+dir)
+	if out, err := cmd2.CombinedOutput(); err != nil {
+		bad("retry-after-crash", "the same operation run again after the crash fails: %v %.200s", err, out)
+		return points, problems
+	}
+	kp3, g3, sh3 := keyMaterial(3)
+	switch op {
+	case "SaveKeyPair":
+		if kp, err := ks.LoadKeyPair(); err != nil || !kp.Key.Equal(kp3.Key) {
+			bad("retry-after-crash/round-trip", "after crash + new SaveKeyPair the key pair on disk is not the one saved: %v", err)
+		}
+	case "SaveGroup":
+		if g, err := ks.LoadGroup(); err != nil || g == nil || !bytes.Equal(g.Hash(), g3.Hash()) {
+			bad("retry-after-crash/round-trip", "after crash + new SaveGroup the group on disk is not the one saved: %v", err)
+		}
+	case "SaveShare":
+		if sh, err := ks.LoadShare(); err != nil || !sh.PrivateShare().V.Equal(sh3.PrivateShare().V) || len(sh.Commits) != len(sh3.Commits) {
+			bad("retry-after-crash/round-trip", "after crash + new SaveShare the share on disk is not the one saved: %v", err)
+		}
+	}
+	secrets := [][]byte{}
+	for _, k := range []*key.Pair{kp1, kp2, kp3} {
+		b, _ := k.Key.MarshalBinary()
+		secrets = append(secrets, []byte(hex.EncodeToString(b)))
+	}
+	for _, s := range []*key.Share{sh1, sh2, sh3} {
+		b, _ := s.PrivateShare().V.MarshalBinary()
+		secrets = append(secrets, []byte(hex.EncodeToString(b)))
+	}
+	_ = filepath.Walk(dir, func(p string, info os.FileInfo, err error) error {
+		if err != nil || !info.Mode().IsRegular() {
+			return nil
+		}
+		b, _ := os.ReadFile(p)
+		for _, sec := range secrets {
+			if bytes.Contains(b, sec) && info.Mode().Perm()&0o077 != 0 {
+				bad("retry-after-crash/secret-file-mode", "after crash + new %s, %s holds a private key/share and has mode %04o", op, filepath.Base(p), info.Mode().Perm())
+				break
+			}
+		}
+		return nil
+	})
 	return points, problems
 }
 
@@ -739,7 +804,7 @@ func partKeystore(c *vlib.Check) (runs int) {
 			}
 		}
 	}
-	c.Sub("c13-keystore", map[string]any{"engine": "E3 on the key store: every crash point of SaveKeyPair / SaveGroup / SaveShare / SelfSignAll over existing files; every file must load and be the old or the new version", "operations": len(keyOps), "crash_runs": runs})
+	c.Sub("c13-keystore", map[string]any{"engine": "E3 on the key store: every crash point of SaveKeyPair / SaveGroup / SaveShare / SelfSignAll over existing files (umask 0); every file must load and be the old or the new version; then the operation is run again with other, shorter content: what is on disk is exactly that, secret files owner-only", "operations": len(keyOps), "crash_runs": runs})
 	return runs
 }
 
